@@ -90,6 +90,8 @@ class Origins:
                     if x[0] == "const" and isinstance(x[1], int):
                         return ("bounded", max(1, x[1].bit_length()), "masked with %#x" % x[1])
                 return a if rank(a) <= rank(b) else b
+            if op == "Shr" and a[0] == "bounded" and b[0] == "const" and isinstance(b[1], int) and 0 < b[1] < a[1]:
+                return ("bounded", a[1] - b[1], "%s >> %d" % (a[2], b[1]))
             if op in ("Shr", "Div", "Rem", "Sub"):
                 return a
             ba, bb = bits_of(a), bits_of(b)
